@@ -1367,3 +1367,137 @@ func ruleR02h(c *Ctx) {
 	}
 	c.floor("R02h", "template states other than the entry's", 1, n)
 }
+
+// R02i: the alias table is written with single name segments (parseAlias) and must be read with the
+// first segment of a call target: the key of every look-up in tree.aliases is X[:d] where d is the
+// index of the FIRST dot of X (strings.Index/IndexByte/IndexRune), or the head returned by strings.Cut.
+func ruleR02i(c *Ctx) {
+	p := c.pkg("parse")
+	if p == nil {
+		return
+	}
+	info := p.TypesInfo
+	n := 0
+	for _, f := range p.Syntax {
+		for _, d := range f.Decls {
+			fd, ok := d.(*ast.FuncDecl)
+			if !ok || fd.Body == nil {
+				continue
+			}
+			// LHS index expressions are writes
+			writes := map[*ast.IndexExpr]bool{}
+			ast.Inspect(fd.Body, func(x ast.Node) bool {
+				if as, ok := x.(*ast.AssignStmt); ok {
+					for _, l := range as.Lhs {
+						if ix, ok := l.(*ast.IndexExpr); ok {
+							writes[ix] = true
+						}
+					}
+				}
+				return true
+			})
+			ast.Inspect(fd.Body, func(x ast.Node) bool {
+				ix, ok := x.(*ast.IndexExpr)
+				if !ok || writes[ix] {
+					return true
+				}
+				fv := fieldOf(ix.X, info)
+				if fv == nil || fv.Name() != "aliases" {
+					return true
+				}
+				n++
+				good, why := firstSegment(ix.Index, fd, info)
+				c.check(good, "R02i", c.declKey("parse", fd)+" alias-lookup#"+itoa(n), ix.Pos(),
+					"the alias is looked up by the first segment of the name", "the alias table, which holds single segments, is looked up with "+exprKey(ix.Index)+": "+why)
+				return true
+			})
+		}
+	}
+	c.floor("R02i", "alias look-ups in the parser", 1, n)
+}
+
+func firstSegment(key ast.Expr, fd *ast.FuncDecl, info *types.Info) (bool, string) {
+	firstDotCall := func(e ast.Expr, of string) bool {
+		call, ok := ast.Unparen(e).(*ast.CallExpr)
+		if !ok || len(call.Args) != 2 || exprKey(call.Args[0]) != of {
+			return false
+		}
+		cal := calleeFunc(call, info)
+		if cal == nil || cal.Pkg() == nil || cal.Pkg().Path() != "strings" {
+			return false
+		}
+		switch cal.Name() {
+		case "Index", "IndexByte", "IndexRune":
+		default:
+			return false
+		}
+		tv, ok := info.Types[call.Args[1]]
+		if !ok || tv.Value == nil {
+			return false
+		}
+		s := tv.Value.ExactString()
+		return s == `"."` || s == "46"
+	}
+	se, ok := ast.Unparen(key).(*ast.SliceExpr)
+	if ok && se.Low == nil && se.High != nil {
+		of := exprKey(se.X)
+		hi := se.High
+		if firstDotCall(hi, of) {
+			return true, ""
+		}
+		if id, ok := ast.Unparen(hi).(*ast.Ident); ok {
+			// every definition of the bound is a first-dot index of the same string
+			obj := info.Uses[id]
+			defs, goodDefs := 0, 0
+			ast.Inspect(fd.Body, func(x ast.Node) bool {
+				as, ok := x.(*ast.AssignStmt)
+				if !ok {
+					return true
+				}
+				for i, l := range as.Lhs {
+					li, ok := l.(*ast.Ident)
+					if !ok || (info.Defs[li] != obj && info.Uses[li] != obj) {
+						continue
+					}
+					defs++
+					if len(as.Lhs) == len(as.Rhs) && firstDotCall(as.Rhs[i], of) {
+						goodDefs++
+					}
+				}
+				return true
+			})
+			if defs > 0 && defs == goodDefs {
+				return true, ""
+			}
+			return false, "its end " + id.Name + " is not the index of the first dot of " + of
+		}
+		return false, "its end is not the index of the first dot of " + of
+	}
+	if id, ok := ast.Unparen(key).(*ast.Ident); ok {
+		// head, _, _ := strings.Cut(X, ".")
+		obj := info.Uses[id]
+		good := false
+		ast.Inspect(fd.Body, func(x ast.Node) bool {
+			as, ok := x.(*ast.AssignStmt)
+			if !ok || len(as.Rhs) != 1 || len(as.Lhs) != 3 {
+				return true
+			}
+			li, ok := as.Lhs[0].(*ast.Ident)
+			if !ok || (info.Defs[li] != obj && info.Uses[li] != obj) {
+				return true
+			}
+			if call, ok := ast.Unparen(as.Rhs[0]).(*ast.CallExpr); ok && len(call.Args) == 2 {
+				if cal := calleeFunc(call, info); cal != nil && cal.Pkg() != nil && cal.Pkg().Path() == "strings" && cal.Name() == "Cut" {
+					if tv, ok := info.Types[call.Args[1]]; ok && tv.Value != nil && tv.Value.ExactString() == `"."` {
+						good = true
+					}
+				}
+			}
+			return true
+		})
+		if good {
+			return true, ""
+		}
+	}
+	return false, "that is not the part of the name before its first dot, so a qualified name such as alias.sub.template misses its alias"
+}
